@@ -5,6 +5,7 @@
 #include <cstdio>
 #include <cstdlib>
 #include <cstring>
+#include <locale>
 #include <map>
 #include <set>
 #include <sstream>
@@ -308,6 +309,37 @@ namespace verif
                 fwrite(&h, 8, 1, f);
             fclose(f);
         }
+    };
+
+    // ---- ambient state: the process's global C++ locale ---------------------------------------
+    // An application may have called std::locale::global() with a locale that groups digits ("1,234", what
+    // std::locale("") gives on an en_US or de_DE system); streams created afterwards format integers that way.
+    // Protocol text must not depend on it.  Only C/POSIX locales are installed in this sandbox, so the locale is
+    // the classic one plus a numpunct facet of its own.  One case in four (decided by the case's bytes, so a
+    // saved input always runs the same way) runs with it installed.
+    struct GroupingLocale
+    {
+        struct Punct : std::numpunct<char>
+        {
+            std::string do_grouping() const override { return "\3"; }
+            char do_thousands_sep() const override { return ','; }
+        };
+        std::locale old;
+        bool on;
+        static bool wanted(const uint8_t* d, size_t n) { return fnv1a(d, n, 0x10ca1e) % 4 == 0; }
+        explicit GroupingLocale(bool enable)
+            : on(enable)
+        {
+            if (on)
+                old = std::locale::global(std::locale(std::locale::classic(), new Punct));
+        }
+        ~GroupingLocale()
+        {
+            if (on)
+                std::locale::global(old);
+        }
+        GroupingLocale(const GroupingLocale&)            = delete;
+        GroupingLocale& operator=(const GroupingLocale&) = delete;
     };
 
     // Implemented by each property harness -------------------------------------
